@@ -109,7 +109,7 @@ def native_call(rng):
 
 def run(ctx):
     # ---- the model: totality of the consuming operations on every heap (design), and the as-coded predictions
-    fams = [("nc2", "NeoVM_C14.cfg", {"WithMutations": "FALSE"}), ("chain", "NeoVM_C15.cfg", {"NC": "13", "HeapMode": '"chain"'})]
+    fams = [("nc2", "NeoVM_C14.cfg", {"WithMutations": "FALSE"}), ("chain", "NeoVM_C15.cfg", {"NC": "13" if ctx.thorough else "11", "HeapMode": '"chain"', "ChainLens": "{9, 10, 11, 12, 13}" if ctx.thorough else "{10, 11}"})]
     if ctx.thorough:
         fams.append(("nc3", "NeoVM_C15.cfg", {"NC": "3"}))
     rows = {}
@@ -141,6 +141,8 @@ def run(ctx):
     else:
         for r in allrows:
             cons = list(nv.CONSUMERS)
+            if len(r["cells"]) > 3:       # long chains: the operations that walk or copy the whole value
+                cons = ["ser", "serdeser", "native", "notify", "equal", "appendstruct", "put", "valuesser"]
             for c in cons:
                 if c in ("keys", "values", "keysser", "valuesser") and r["cells"][0]["kind"] != "map":
                     continue
@@ -159,7 +161,8 @@ def run(ctx):
                     cls = "cycle-at-non-first-element:" + nv.marshal_loop_kinds(r["cells"])
                 elif pred == "unpredicted":
                     cls = "struct-clone-heap"
-                add("heap:" + c, cls, nv.program(r["cells"], c), pred, meta=nv.heap_text(r))
+                modes = (False, True) if c in ("ser", "native", "notify", "serdeser") else (False,)
+                add("heap:" + c, cls, nv.program(r["cells"], c), pred, modes=modes, meta=nv.heap_text(r))
         for name, code in skeletons():
             add("skeleton", name, code, "fast" if not name.startswith("nest") or ":native" not in name else "fast")
         for (w, d) in ((4, 4), (16, 3), (16, 4)):
@@ -201,7 +204,7 @@ def run(ctx):
     deaths2 = 0
     import concurrent.futures
     with concurrent.futures.ThreadPoolExecutor(max_workers=min(nproc, 6)) as ex:
-        futs = [ex.submit(nv.run_child, ctx, binary, "TestVerifPrograms", [item(p)], "single%d" % p["id"], 120, 4, "items", None, "run") for p in picked + singles]
+        futs = [ex.submit(nv.run_child, ctx, binary, "TestVerifPrograms", [item(p)], "single%d" % p["id"], 90, 4, "items", None, "run") for p in picked + singles]
         for f in futs:
             r, d = f.result()
             res2 += r
@@ -265,6 +268,6 @@ def finish(ctx, stats, n, extra):
         "the specification is a value-graph / resource-guard model: it generates the adversarial heaps and states totality; it is not a model of all NeoVM semantics (DESIGN.md section 5)",
         "scope of this check: NeoVM bytecode through SmartContract.NewExecuteEngine().Invoke() in transaction mode (gas limit 200000) and pre-execution mode (step limit), "
         "syscalls into runtime/storage/native contracts on an empty in-memory ledger state; EVM bytecode and WASM are not exercised",
-        "a program counts as hanging when one run exceeds 120 s wall clock (the same programs need < 1 s when they fault properly)",
+        "a program counts as hanging when one run produces no result for 90 s wall clock (180 s inside a batch) (the same programs need < 1 s when they fault properly)",
         "programs on which the as-coded model predicts a fatal run are sampled per structural class (each costs a process)",
     ])
